@@ -58,107 +58,128 @@ def build(spec):
         flip = bool(spec.get("reverse")) and what != "dline"
         present = build_from_bits(cands, bits, lambda c: h.add_edge(tuple(reversed(c)) if flip else c),
                                   lambda c: h.remove_edge(c), mode)
-        if what == "bipartite":
-            g, ids = pr.bipartite_projection(h)
-            nv = [k for k in ids if ids[k] in nodes and not isinstance(ids[k], tuple)]
-            ev = [k for k in ids if isinstance(ids[k], tuple)]
-            if sorted(g.nodes()) != sorted(ids):
-                return Fail("bipartite:vertices-vs-id-table")
-            if sorted((ids[k] for k in nv), key=str) != sorted(nodes, key=str):
-                return Fail("bipartite:node-vertices")
-            if sorted(ids[k] for k in ev) != sorted(present):
-                return Fail("bipartite:hyperedge-vertices")
-            if len(nv) + len(ev) != len(ids):
-                return Fail("bipartite:id-table")
-            for a in nv:
-                for b in ev:
-                    if g.has_edge(a, b) != (ids[a] in ids[b]):
-                        return Fail("bipartite:membership")
-            if g.number_of_edges() != sum(len(e) for e in present):
-                return Fail("bipartite:extra-edges")
-            return None
-        if what == "clique":
-            keep = S.bool("keep_isolated")
-            g = pr.clique_projection(h, keep_isolated=keep)
-            for a, b in itertools.combinations(nodes, 2):
-                want = any(a in e and b in e for e in present)
-                got = g.has_edge(a, b)
-                if got != want:
-                    return Fail("clique:adjacency")
-            covered = set(x for e in present if len(e) >= 2 for x in e)
-            gn = set(g.nodes())
-            if keep:
-                if gn != set(nodes):
-                    return Fail("clique:isolated-nodes-not-kept")
+        _vals = {}
+
+        def once(name, make):
+            if name not in _vals:
+                _vals[name] = make()
+            return _vals[name]
+
+        def check(present):
+            if what == "bipartite":
+                g, ids = pr.bipartite_projection(h)
+                nv = [k for k in ids if ids[k] in nodes and not isinstance(ids[k], tuple)]
+                ev = [k for k in ids if isinstance(ids[k], tuple)]
+                if sorted(g.nodes()) != sorted(ids):
+                    return Fail("bipartite:vertices-vs-id-table")
+                if sorted((ids[k] for k in nv), key=str) != sorted(nodes, key=str):
+                    return Fail("bipartite:node-vertices")
+                if sorted(ids[k] for k in ev) != sorted(present):
+                    return Fail("bipartite:hyperedge-vertices")
+                if len(nv) + len(ev) != len(ids):
+                    return Fail("bipartite:id-table")
+                for a in nv:
+                    for b in ev:
+                        if g.has_edge(a, b) != (ids[a] in ids[b]):
+                            return Fail("bipartite:membership")
+                if g.number_of_edges() != sum(len(e) for e in present):
+                    return Fail("bipartite:extra-edges")
+                return None
+            if what == "clique":
+                keep = once("keep_isolated", lambda: S.bool("keep_isolated"))
+                g = pr.clique_projection(h, keep_isolated=keep)
+                for a, b in itertools.combinations(nodes, 2):
+                    want = any(a in e and b in e for e in present)
+                    got = g.has_edge(a, b)
+                    if got != want:
+                        return Fail("clique:adjacency")
+                covered = set(x for e in present if len(e) >= 2 for x in e)
+                gn = set(g.nodes())
+                if keep:
+                    if gn != set(nodes):
+                        return Fail("clique:isolated-nodes-not-kept")
+                else:
+                    if not (covered <= gn <= set(nodes)):
+                        return Fail("clique:vertex-set")
+                if any(a == b for a, b in g.edges()):
+                    return Fail("clique:self-loop")
+                return None
+            if what == "simplicial":
+                sc = simplicial_complex(h)
+                got = set(e for e in sc.get_edges() if len(e) > 0)
+                again = set(e for e in simplicial_complex(h).get_edges() if len(e) > 0)
+                if again != got:
+                    return Fail("simplicial:second-call-differs")
+                want = set()
+                for e in present:
+                    for r in range(1, len(e) + 1):
+                        for sub in itertools.combinations(sorted(e), r):
+                            want.add(sub)
+                if not want <= got:
+                    return Fail("simplicial:missing-face")
+                if not got <= want:
+                    return Fail("simplicial:face-outside-input")
+                return None
+            # line graphs
+            dist = spec["distance"]
+            weighted = once("weighted", lambda: S.bool("weighted"))
+            if dist == "intersection":
+                s = once("s", lambda: S.int("s", lo=1))
+                meas = lambda a, b: len(set(a) & set(b))  # noqa: E731
             else:
-                if not (covered <= gn <= set(nodes)):
-                    return Fail("clique:vertex-set")
-            if any(a == b for a, b in g.edges()):
-                return Fail("clique:self-loop")
-            return None
-        if what == "simplicial":
-            sc = simplicial_complex(h)
-            got = set(e for e in sc.get_edges() if len(e) > 0)
-            again = set(e for e in simplicial_complex(h).get_edges() if len(e) > 0)
-            if again != got:
-                return Fail("simplicial:second-call-differs")
-            want = set()
-            for e in present:
-                for r in range(1, len(e) + 1):
-                    for sub in itertools.combinations(sorted(e), r):
-                        want.add(sub)
-            if not want <= got:
-                return Fail("simplicial:missing-face")
-            if not got <= want:
-                return Fail("simplicial:face-outside-input")
-            return None
-        # line graphs
-        dist = spec["distance"]
-        weighted = S.bool("weighted")
-        if dist == "intersection":
-            s = S.int("s", lo=1)
-            meas = lambda a, b: len(set(a) & set(b))  # noqa: E731
-        else:
-            s = S.real("s", lo=0.0, hi=1.0, lo_open=True)
-            meas = lambda a, b: len(set(a) & set(b)) / len(set(a) | set(b))  # noqa: E731
-        if what == "line":
-            g, ids = pr.line_graph(h, distance=dist, s=s, weighted=weighted)
+                s = once("s", lambda: S.real("s", lo=0.0, hi=1.0, lo_open=True))
+                meas = lambda a, b: len(set(a) & set(b)) / len(set(a) | set(b))  # noqa: E731
+            if what == "line":
+                g, ids = pr.line_graph(h, distance=dist, s=s, weighted=weighted)
+                if sorted(ids.values()) != sorted(present) or sorted(ids) != list(range(len(present))):
+                    return Fail("line:id-table")
+                if sorted(g.nodes()) != list(range(len(present))):
+                    return Fail("line:vertices")
+                for i, j in itertools.combinations(range(len(present)), 2):
+                    w = meas(ids[i], ids[j])
+                    if g.has_edge(i, j) != (w >= s):
+                        return Fail("line:threshold")
+                    if g.has_edge(i, j) and weighted and abs(g[i][j]["weight"] - w) > 1e-12:
+                        return Fail("line:weight")
+                if any(a == b for a, b in g.edges()):
+                    return Fail("line:self-loop")
+                # similarity functions directly
+                for e1, e2 in itertools.combinations(present, 2):
+                    if es.intersection(set(e1), set(e2)) != len(set(e1) & set(e2)):
+                        return Fail("edge_similarity:intersection")
+                    j = es.jaccard_similarity(set(e1), set(e2))
+                    if abs(j - len(set(e1) & set(e2)) / len(set(e1) | set(e2))) > 1e-12 or abs(es.jaccard_distance(e1, e2) - (1 - j)) > 1e-12:
+                        return Fail("edge_similarity:jaccard")
+                return None
+            g, ids = pr.directed_line_graph(h, distance=dist, s=s, weighted=weighted)
             if sorted(ids.values()) != sorted(present) or sorted(ids) != list(range(len(present))):
-                return Fail("line:id-table")
+                return Fail("dline:id-table")
             if sorted(g.nodes()) != list(range(len(present))):
-                return Fail("line:vertices")
-            for i, j in itertools.combinations(range(len(present)), 2):
-                w = meas(ids[i], ids[j])
-                if g.has_edge(i, j) != (w >= s):
-                    return Fail("line:threshold")
-                if g.has_edge(i, j) and weighted and abs(g[i][j]["weight"] - w) > 1e-12:
-                    return Fail("line:weight")
-            if any(a == b for a, b in g.edges()):
-                return Fail("line:self-loop")
-            # similarity functions directly
-            for e1, e2 in itertools.combinations(present, 2):
-                if es.intersection(set(e1), set(e2)) != len(set(e1) & set(e2)):
-                    return Fail("edge_similarity:intersection")
-                j = es.jaccard_similarity(set(e1), set(e2))
-                if abs(j - len(set(e1) & set(e2)) / len(set(e1) | set(e2))) > 1e-12 or abs(es.jaccard_distance(e1, e2) - (1 - j)) > 1e-12:
-                    return Fail("edge_similarity:jaccard")
+                return Fail("dline:vertices")
+            for i in range(len(present)):
+                for j in range(len(present)):
+                    if i == j:
+                        if g.has_edge(i, j):
+                            return Fail("dline:self-loop")
+                        continue
+                    w = meas(ids[i][1], ids[j][0])
+                    if g.has_edge(i, j) != (w >= s):
+                        return Fail("dline:threshold")
+                    if g.has_edge(i, j) and weighted and abs(g[i][j]["weight"] - w) > 1e-12:
+                        return Fail("dline:weight")
             return None
-        g, ids = pr.directed_line_graph(h, distance=dist, s=s, weighted=weighted)
-        if sorted(ids.values()) != sorted(present) or sorted(ids) != list(range(len(present))):
-            return Fail("dline:id-table")
-        if sorted(g.nodes()) != list(range(len(present))):
-            return Fail("dline:vertices")
-        for i in range(len(present)):
-            for j in range(len(present)):
-                if i == j:
-                    if g.has_edge(i, j):
-                        return Fail("dline:self-loop")
-                    continue
-                w = meas(ids[i][1], ids[j][0])
-                if g.has_edge(i, j) != (w >= s):
-                    return Fail("dline:threshold")
-                if g.has_edge(i, j) and weighted and abs(g[i][j]["weight"] - w) > 1e-12:
-                    return Fail("dline:weight")
+
+        r = check(present)
+        if r is not None:
+            return r
+        absent = [c for c, b_ in zip(cands, bits) if not b_]
+        if spec.get("rewire") and present and absent and what in ("bipartite", "clique", "line", "dline"):
+            # the same object is rewired (counts unchanged) and projected again
+            h.remove_edge(present[0])
+            h.add_edge(absent[0])
+            r = check(present[1:] + [absent[0]])
+            if r is not None:
+                return Fail(r.label + ":after-rewiring-the-same-object")
         return None
 
     return harness
@@ -174,17 +195,17 @@ def obligations(tier, seed):
             for what in ("bipartite", "clique", "simplicial"):
                 k += 1
                 out.append({"family": what, "cands": cname, "fixed": list(fixed), "what": what, "reverse": rev,
-                            "build": ("add", "remove", "readd")[k % 3]})
+                            "build": ("add", "remove", "readd")[k % 3], "rewire": k % 2 == 0})
             for dist in ("intersection", "jaccard"):
                 k += 1
                 out.append({"family": "line", "cands": cname, "fixed": list(fixed), "what": "line", "distance": dist,
-                            "reverse": rev, "build": ("remove", "add", "readd")[k % 3]})
+                            "reverse": rev, "build": ("remove", "add", "readd")[k % 3], "rewire": k % 2 == 1})
     for cname, nfix in ([("n4q", 3)] if q else [("n4", 4), ("n5", 6)]):
         for fixed in itertools.product([0, 1], repeat=nfix):
             for dist in ("intersection", "jaccard"):
                 k += 1
                 out.append({"family": "dline", "cands": cname, "fixed": list(fixed), "what": "dline", "distance": dist,
-                            "build": ("add", "remove")[k % 2]})
+                            "build": ("add", "remove")[k % 2], "rewire": k % 3 == 0})
     return out
 
 
